@@ -18,11 +18,11 @@ FUNCTIONS_ENCODED = [
 UQ_LIBS = ['GRWAqueous2018', 'GRWSurface2018', 'GuSolventGA2017Vac']   # the libraries whose library.yaml includes uq.yaml
 BOUNDS = {
     'quick': 'synthetic basis of 3 descriptors: concrete rational symmetric M with symbolic real counts and RMSE; symbolic '
-             'symmetric M with <= 2 non-zero counts; scaling factor, mapping order and an out-of-basis descriptor symbolic; '
+             'symmetric M with <= 2 non-zero counts; counts from a grid of 5 concrete values incl. fractional and negative ones (125 vectors, solver-enumerated); scaling factor, mapping order and an out-of-basis descriptor symbolic; '
              'shipped uncertainty libraries: concrete M, the WHOLE count vector over the basis symbolic at once (66-75 reals) and a seeded subset of 12',
     'thorough': 'the same for all three properties and 3 seeded subsets per library',
 }
-STUBS = ['NpShim/Arr for numpy in group_data (zeros, item assignment, transpose, dot, square, sqrt)',
+STUBS = ['NpShim/Arr/Vec for numpy in group_data (zeros incl. 1-D and integer dtype = truncation on assignment, item assignment, transpose, dot, @, square, sqrt)',
          'SQRT is a bare uninterpreted function: the radicand handed to sqrt is compared with RMSE^2 x.M.x and the value returned must be that sqrt term (sign and value of the root are numpy.sqrt\'s contract)',
          'RMSE correlation = stub returning a symbolic real']
 ASSUMPTIONS = ['float := real', "x'Mx >= 0 (sqrt of a negative radicand is outside the claim; PSD-ness of shipped matrices is C14)",
@@ -83,6 +83,9 @@ def _install():
     return m
 
 
+GRIDX = [0.0, 0.5, 1.0, -2.75, 3.0]
+
+
 def _quad(M, x):
     acc = 0
     for i in range(len(x)):
@@ -119,6 +122,11 @@ def h_quadform(d: bool):
     if mode == 'concreteM':
         M = M3
         x = [R('x0'), R('x1'), R('x2')]
+    elif mode == 'gridx':
+        # counts chosen by the solver from a small grid of concrete values incl. fractional and negative ones (fractional counts
+        # occur in shipped decompositions); RMSE stays symbolic
+        M = M3
+        x = [GRIDX[choose('gx%d' % i, len(GRIDX))] for i in range(3)]
     else:
         a, b, c, d_, e, f = R('m00'), R('m01'), R('m02'), R('m11'), R('m12'), R('m22')
         M = [[a, b, c], [b, d_, e], [c, e, f]]
@@ -261,6 +269,7 @@ def obligations(tier, seed):
     for g in ('get_CpoR', 'get_HoRT', 'get_SoR'):
         obs.append(dict(name='quadform_concreteM_%s' % g, func='h_quadform', param=dict(mode='concreteM', getter=g), timeout=to))
         obs.append(dict(name='quadform_symbolicM_%s' % g, func='h_quadform', param=dict(mode='symbolicM', getter=g), timeout=to))
+    obs.append(dict(name='quadform_gridx', func='h_quadform', param=dict(mode='gridx', getter='get_SoR'), timeout=to))
     obs.append(dict(name='scaling', func='h_scaling', param=dict(getter='get_HoRT'), timeout=to))
     obs.append(dict(name='outside_basis', func='h_outside_basis', param={}, timeout=to))
     obs.append(dict(name='two_libraries', func='h_two_libraries', param={}, timeout=to))
